@@ -443,7 +443,7 @@ class Lexer:
                     token=ErrorToken(
                         type_=TokenType.ERROR,
                         index=self.start,
-                        value=self.source[self.start],
+                        value=self.source[self.start : self.pos],
                         markup_start=self.markup_start,
                         markup_stop=self.pos,
                         source=self.source,
@@ -581,7 +581,7 @@ class Lexer:
                     token=ErrorToken(
                         type_=TokenType.ERROR,
                         index=self.start,
-                        value=self.source[self.start],
+                        value=self.source[self.start : self.pos],
                         markup_start=self.markup_start,
                         markup_stop=self.pos,
                         source=self.source,
